@@ -29,9 +29,14 @@ def run(chk):
     chk.add_tlc("safe.full", res)
     binary = vlib.build("root")
     scripts = hsreplay.generate(chk, "full")
-    for fam in (["full12", "psk12"] if chk.quick else ["full12", "psk12", "clientauth12", "cid12"]):
-        share = scripts if fam == "full12" else scripts[chk.seed % 3::3]
-        rows, summ, sc = hsreplay.replay(chk, binary, fam, share)
+    # stale12: session stores present, the client offers a session id the server does not know ("does not resume a session it
+    # knows"); "+nb": retransmission backoff disabled (the timer branch that must never send a cookie request is another one)
+    fams = ["full12", "psk12", "stale12", "full12+nb"] if chk.quick else ["full12", "psk12", "clientauth12", "cid12", "stale12", "stores12", "full12+nb", "stale12+nb"]
+    for famx in fams:
+        fam, nb = famx.split("+")[0], famx.endswith("+nb")
+        share = scripts if famx == "full12" else scripts[chk.seed % 3::3]
+        rows, summ, sc = hsreplay.replay(chk, binary, fam, share, extra_scen={"noBackoff": True} if nb else None, bkcap=0 if nb else 3)
+        fam = famx
         n = 0
         for r in rows:
             for v in [x for x in r.get("law", []) if "cookie" in x][:1]:
@@ -52,9 +57,18 @@ def run(chk):
             chk.violation({"kind": "cookie-first-13", "what": v,
                            "script13": {"scen": sc13, "steps": scripts13[r["script"]]["steps"], "cap": 2, "bkcap": 3}})
     chk.parts["replay13.hrr"] = {"scripts": summ["scripts"], "cookie_violations": n13, "diverged": summ.get("diverged", 0)}
+    nb13 = scripts13[chk.seed % 4::4]
+    rows, summ, scnb = hsreplay13.replay(chk, binary, "hrr", nb13, extra_scen={"noBackoff": True}, tag="-nobackoff")
+    nnb = 0
+    for r in rows:
+        for v in [x for x in r.get("law", []) if "C13" in x][:1]:
+            nnb += 1
+            chk.violation({"kind": "cookie-first-13", "what": v,
+                           "script13": {"scen": scnb, "steps": nb13[r["script"]]["steps"], "cap": 2, "bkcap": 3}})
+    chk.parts["replay13.hrr.nobackoff"] = {"scripts": summ["scripts"], "cookie_violations": nnb}
     # (C) ClientHello pairs
     cases = []
-    fams = ["full12", "psk12", "hrr13s"] if chk.quick else ["full12", "psk12", "cid12", "clientauth12", "hrr13s"]
+    fams = ["full12", "psk12", "stale12", "hrr13s"] if chk.quick else ["full12", "psk12", "cid12", "clientauth12", "stale12", "stores12", "hrr13s"]
     for fam in fams:
         for mut in MUTS:
             for reps in (1, 2, 3):
@@ -97,7 +111,9 @@ def run(chk):
         chk.sample({"pair": rows[3]["name"], "server_emitted": rows[3].get("emitted")})
         # real-time silence after the cookie request
         sil = [{"scen": dict(scen.ALL[f], intervalMs=10), "name": "%s/s/F2" % f, "side": "s", "flight": "F2", "gaps": 4}
-               for f in ("full12", "hrr13s", "hrr13")]
+               for f in ("full12", "stale12", "hrr13s", "hrr13")]
+        sil += [{"scen": dict(scen.ALL[f], intervalMs=10, noBackoff=True), "name": "%s-nobackoff/s/F2" % f, "side": "s", "flight": "F2", "gaps": 4}
+                for f in ("full12", "hrr13s")]
         with open(inp, "w") as fh:
             for c in sil:
                 fh.write(json.dumps(c) + "\n")
